@@ -2,5 +2,5 @@
 # Build the framework from files on disk only (offline): Lean model + proofs + driver, Rust harness.
 set -e
 cd "$(dirname "$0")"
-( cd lean && lake build PieModel Driver driver )
+( cd lean && lake build PieModel driver )
 ( cd harness && CARGO_NET_OFFLINE=true cargo build --release --offline )
